@@ -116,6 +116,7 @@ type World struct {
 	Feeder   *Account
 	Bot      *Account
 	Admin    *Account // pool creator; allowed pool creator
+	Sinks    []*Account // passive recipients: never sign, start empty
 	ByAddr   map[string]*Account
 	Height   int64
 	Time     time.Time
@@ -165,6 +166,9 @@ func NewWorld(sc Scenario) *World {
 	w.Feeder = mkAccount("feeder")
 	w.Bot = mkAccount("bot")
 	w.Admin = mkAccount("admin")
+	for i := 0; i < 3; i++ {
+		w.Sinks = append(w.Sinks, mkAccount(fmt.Sprintf("sink%d", i)))
+	}
 	w.Genesis, w.ValHash = w.buildGenesis()
 	w.initChain()
 	return w
@@ -221,6 +225,11 @@ func (w *World) buildGenesis() ([]byte, []byte) {
 		}
 		balances = append(balances, banktypes.Balance{Address: a.Addr.String(), Coins: coins})
 		total = total.Add(coins...)
+	}
+	for i, a := range w.Sinks {
+		a.Num = uint64(len(keyed) + i)
+		w.ByAddr[a.Addr.String()] = a
+		genAccs = append(genAccs, authtypes.NewBaseAccount(a.Addr, nil, a.Num, 0))
 	}
 	gs[authtypes.ModuleName] = cdc.MustMarshalJSON(authtypes.NewGenesisState(authtypes.DefaultParams(), genAccs))
 
@@ -503,4 +512,14 @@ func sortedKeys[V any](m map[string]V) []string {
 	}
 	sort.Strings(ks)
 	return ks
+}
+
+// Restart discards the application object and rebuilds it from the same database,
+// as a node that was stopped after the last commit and started again.
+func (w *World) Restart() error {
+	w.App = newApp(w.DB, w.homeDir)
+	if got := w.App.LastBlockHeight(); got != w.Height {
+		return fmt.Errorf("restart: app loaded height %d, expected %d", got, w.Height)
+	}
+	return nil
 }
